@@ -101,7 +101,7 @@ def eval_any(case, rng):
     nfl = rng.choice([0, 1, 1, 2, 3])
     flows = []
     for i in range(nfl):
-        flows.append(gen.random_quic_flow(rng, i, napp=rng.choice([2, 6])) if rng.random() < 0.4 else gen.random_tls_flow(rng, i, nmax=8, segkinds=tcpcap.CUT_KINDS, perturb=rng.random() < 0.2))
+        flows.append(gen.random_quic_flow(rng, i, napp=rng.choice([2, 6])) if rng.random() < 0.4 else gen.random_tls_flow(rng, i, nmax=8, segkinds=tcpcap.CUT_KINDS, perturb=rng.random() < 0.2, duplex=rng.random() < 0.25, repack=rng.random() < 0.15))
     noise = []
     for k in range(rng.choice([0, 0, 1, 3])):
         kind = rng.choice(["http", "udp", "udpq", "other"])
